@@ -217,8 +217,10 @@ func settledAfter(before []int) int {
 			ref = b
 		}
 	}
-	for try := 0; try < 4 && n > ref; try++ {
-		time.Sleep(10 * time.Millisecond)
+	// (up to 300 ms: under heavy machine load a writer goroutine on its way out was once still
+	// counted 40 ms after the call returned - thorough tier, niced run - and gone at the next reading)
+	for try := 0; try < 12 && n > ref; try++ {
+		time.Sleep(25 * time.Millisecond)
 		if m := settledGoroutines(); m < n {
 			n = m
 		}
@@ -1007,7 +1009,7 @@ func checkC12(c *Ctx, r *Report) error {
 	r.Coverage["goroutine_observations"] = poolCases
 	r.Coverage["goroutine_observations_equal_to_model"] = poolExact
 	r.Coverage["model_compared"] = map[bool]string{true: "pinned (reproduction run)", false: "repaired"}[model == "pinned"]
-	r.Rule = "fault cases: one child process per (sink, renderer, target); scripted renderers write numbered items in the given Write sizes through the real sdf buffers, real renderers (marching cubes uniform/octree, marching squares uniform/quadtree, dual contouring 2d) render a unit sphere/circle; targets: writable file, /dev/full, missing directory, a directory, RLIMIT_FSIZE with SIGXFSZ ignored at every 4096-byte flush boundary of the STL writer (+-1 byte, and below the header size). Observed: returned within the time limit or not (with the blocked frame), STL header count. leak cases: one child per history of k renders, runtime.NumGoroutine() (settled) after each render minus before the first. history cases: one child performs a warm-up (a good call, a failing call), then the same failing call R times (R=40 quick), then good calls of every entry point of that dimension, for every entry point (ToSTL, To3MF, ToDXF, ToSVG) x failure kind (missing directory, path is a directory, /dev/full, RLIMIT_FSIZE soft limit 0/100/4096/20000 set for that call only), scripted and real renderers, plus mixed histories; every call must return and the goroutine count must not exceed its value after the warm-up. env histories (env.go): one child performs a history whose run-time environment changes between and during the calls: runtime.GOMAXPROCS set before a call (lower-then-raise cycles, raise-then-lower, long low / long high phases, three levels in both directions, a staircase through 1,2,3,6,NumCPU-1,NumCPU,NumCPU+1,2*NumCPU,64 and back, random walks over these levels; fixed and NumCPU-relative values below, across and above the number of CPUs), GOMAXPROCS changed during a call (by the shape under evaluation every 97 evaluations, deterministic; by a free-running goroutine), several concurrent calls per step (the number in flight going up and down), the solid / resolution / entry point / renderer changing from call to call, failing sinks in between, GC percent and idle time; all 3D and 2D entry points. Oracle, NumCPU-independent: after a warm-up of two full periods (or the staircase twice) the settled goroutine count never exceeds the largest count seen during the warm-up; a reading above everything seen before is re-read up to 4 times 10 ms apart and the smallest reading counts. Steps up to the first GOMAXPROCS above NumCPU are also compared with the model's pool bound. odd output paths (paths.go): every path-taking entry point (ToSTL, To3MF, ToDXF, ToSVG) x 20 kinds of path - empty string, trailing slash, '.', '..', '/', parent is a regular file, name beyond NAME_MAX, path beyond PATH_MAX, NUL byte in the name, read-only directory and existing read-only file (for root: below /sys/kernel), /proc/version (opens, every write fails), a symbolic link to itself, a two-link loop in the parent, a dangling symbolic link, and creatable but unusual ones: /dev/null, a name with blank/newline/tab/quotes/non-ASCII/leading dash, no extension, a relative name, an unclean relative path; the child's working directory is its scratch directory; the path and whatever it needs on disk is built in the child from the kind alone. Single calls (scripted renderers with several batches and with one batch sent by Close, one real renderer) are compared with the model, create_ok being what a probing os.Create of the same path says just before the call; histories in one process: per entry point and kind a good call, the odd call, the odd call R more times (R=24 quick), then good calls of every entry point; per entry point all kinds in turn, the round repeated; per dimension entry point and kind at random with 2-3 concurrent calls now and then; every call must return within the time limit and the settled goroutine count must not exceed what it was after (during, for the rounds) the warm-up. Non-trivial = a failing target with at least one item, or a leak history; distinct by the spec."
+	r.Rule = "fault cases: one child process per (sink, renderer, target); scripted renderers write numbered items in the given Write sizes through the real sdf buffers, real renderers (marching cubes uniform/octree, marching squares uniform/quadtree, dual contouring 2d) render a unit sphere/circle; targets: writable file, /dev/full, missing directory, a directory, RLIMIT_FSIZE with SIGXFSZ ignored at every 4096-byte flush boundary of the STL writer (+-1 byte, and below the header size). Observed: returned within the time limit or not (with the blocked frame), STL header count. leak cases: one child per history of k renders, runtime.NumGoroutine() (settled) after each render minus before the first. history cases: one child performs a warm-up (a good call, a failing call), then the same failing call R times (R=40 quick), then good calls of every entry point of that dimension, for every entry point (ToSTL, To3MF, ToDXF, ToSVG) x failure kind (missing directory, path is a directory, /dev/full, RLIMIT_FSIZE soft limit 0/100/4096/20000 set for that call only), scripted and real renderers, plus mixed histories; every call must return and the goroutine count must not exceed its value after the warm-up. env histories (env.go): one child performs a history whose run-time environment changes between and during the calls: runtime.GOMAXPROCS set before a call (lower-then-raise cycles, raise-then-lower, long low / long high phases, three levels in both directions, a staircase through 1,2,3,6,NumCPU-1,NumCPU,NumCPU+1,2*NumCPU,64 and back, random walks over these levels; fixed and NumCPU-relative values below, across and above the number of CPUs), GOMAXPROCS changed during a call (by the shape under evaluation every 97 evaluations, deterministic; by a free-running goroutine), several concurrent calls per step (the number in flight going up and down), the solid / resolution / entry point / renderer changing from call to call, failing sinks in between, GC percent and idle time; all 3D and 2D entry points. Oracle, NumCPU-independent: after a warm-up of two full periods (or the staircase twice) the settled goroutine count never exceeds the largest count seen during the warm-up; a reading above everything seen before is re-read up to 12 times 25 ms apart and the smallest reading counts. Steps up to the first GOMAXPROCS above NumCPU are also compared with the model's pool bound. odd output paths (paths.go): every path-taking entry point (ToSTL, To3MF, ToDXF, ToSVG) x 20 kinds of path - empty string, trailing slash, '.', '..', '/', parent is a regular file, name beyond NAME_MAX, path beyond PATH_MAX, NUL byte in the name, read-only directory and existing read-only file (for root: below /sys/kernel), /proc/version (opens, every write fails), a symbolic link to itself, a two-link loop in the parent, a dangling symbolic link, and creatable but unusual ones: /dev/null, a name with blank/newline/tab/quotes/non-ASCII/leading dash, no extension, a relative name, an unclean relative path; the child's working directory is its scratch directory; the path and whatever it needs on disk is built in the child from the kind alone. Single calls (scripted renderers with several batches and with one batch sent by Close, one real renderer) are compared with the model, create_ok being what a probing os.Create of the same path says just before the call; histories in one process: per entry point and kind a good call, the odd call, the odd call R more times (R=24 quick), then good calls of every entry point; per entry point all kinds in turn, the round repeated; per dimension entry point and kind at random with 2-3 concurrent calls now and then; every call must return within the time limit and the settled goroutine count must not exceed what it was after (during, for the rounds) the warm-up. Non-trivial = a failing target with at least one item, or a leak history; distinct by the spec."
 	r.Trusted = append(r.Trusted,
 		"model coq/Sys/Pipeline.v of the ToXXX / writer-goroutine protocol and of the evalRoutines pool, tied twice: by translation (harness/sysgen extracts the statement skeleton of ToTriangles / ToSTL / To3MF / ToDXF / ToSVG, WriteTriangles / writeSTL / write3MF / writeDXF / writeSVG with their goroutines, evalRoutines and marchingCubes from the current source into Generated/SysProgs.v; Sys/PipeProg.v gives a call a small-step meaning, proves it a refinement of Pipeline.next (sim_step) and proves that each of the five extracted calls always returns, C12_source_*; Sys/PoolProg.v proves the extracted pool start equal to render_pool Repaired) and by differential execution (cases_fault_*.v, cases_goroutines_*.v)",
 		"harness/sysgen (classification of Data statements, helper inlining) and the reading of each primitive statement by the interpreter of PipeProg.v; inside r.Render the renderer is taken to block only in its channel sends (one rendezvous per batch)",
